@@ -110,7 +110,7 @@ func runPoolSeq(vectors, out string, shards, only int) {
 	sc := bufio.NewScanner(f)
 	sc.Buffer(make([]byte, 1<<20), 1<<26)
 	probe := &zoo.Small{Name: "pooled", N: 7}
-	tm, nm := hessian.ExtractTypeNameMap(probe)
+	tm, nm := hessian.ExtractTypeNameMap([]interface{}{probe, zoo.Item{}})
 	n, nu := 0, 0
 	samples := []interface{}{}
 	hangs := 0
@@ -173,6 +173,26 @@ func runPoolSeq(vectors, out string, shards, only int) {
 			for _, h := range vec.H {
 				if ok = step(h.Op, h.G, h.J); !ok {
 					break
+				}
+			}
+			// every object held right now is used at the same time: interleaved streams, one per holder
+			// (an object handed to two holders, or two objects sharing state, garble each other's stream)
+			if ok && nu < 1200 && only < 0 {
+				var objs []interface{}
+				for g := 0; g <= 8; g++ {
+					objs = append(objs, held[g]...)
+				}
+				if len(objs) >= 2 {
+					vals := make([][]interface{}, len(objs))
+					for i := range objs {
+						vals[i] = []interface{}{&zoo.Small{Name: fmt.Sprintf("first of %d", i), N: int32(i)}, fmt.Sprintf("second of %d", i),
+							zoo.Item{K: fmt.Sprintf("third of %d", i), V: int64(i)}}
+					}
+					for _, sev := range drv.StreamOn(kind, objs, vals, tm, nm) {
+						sev["label"] = fmt.Sprintf("overlap/%s/vec%d", kind, id)
+						wu.writeID(sev, nu)
+						nu++
+					}
 				}
 			}
 			// drain: what the pool retained comes out oldest first, then a fresh object
